@@ -26,11 +26,11 @@ fn phases(tier: Tier) -> Phases {
         Tier::Quick => Phases {
             tok_full: seq_space(54, 3),
             tok_reduced: seq_space(20, 3),
-            text: 150_000,
-            mutants: 90_000,
+            text: 300_000,
+            mutants: 200_000,
             nested: (TEMPLATES * VARIANTS * 200) as u64,
-            cli: 1_500,
-            lsp: 3_000,
+            cli: 3_000,
+            lsp: 6_000,
         },
         Tier::Thorough => Phases {
             tok_full: seq_space(54, 3),
@@ -223,7 +223,9 @@ fn tail(s: &str, n: usize) -> String {
     cs[cs.len().saturating_sub(n)..].iter().collect()
 }
 
-fn check_lsp(text: &str, r: &mut CaseReport) {
+/// `unsaved`: the document is first changed to that text, then closed without saving while the
+/// file on disk holds `text`; the server must carry on with the file (a session every editor makes).
+fn check_lsp(text: &str, unsaved: Option<&str>, r: &mut CaseReport) {
     LSP_SERVER.with(|cell| {
         let mut cell = cell.borrow_mut();
         if cell.is_none() {
@@ -244,9 +246,19 @@ fn check_lsp(text: &str, r: &mut CaseReport) {
         }
         let (dir, lsp) = cell.as_mut().unwrap();
         let uri = dir.uri("main.oal");
-        let res = lsp
-            .did_change(&uri, &[(None, text.to_owned())])
-            .and_then(|_| lsp.barrier(&uri));
+        let res = match unsaved {
+            None => lsp.did_change(&uri, &[(None, text.to_owned())]).and_then(|_| lsp.barrier(&uri)),
+            Some(u) => {
+                r.label("lsp-close-unsaved");
+                lsp.did_change(&uri, &[(None, u.to_owned())]).and_then(|_| lsp.barrier(&uri)).and_then(|_| {
+                    dir.write("main.oal", text);
+                    lsp.did_close(&uri)?;
+                    lsp.barrier(&uri)?;
+                    lsp.did_open(&uri, text)?;
+                    lsp.barrier(&uri)
+                })
+            }
+        };
         match res {
             Ok(()) => {
                 if !lsp.alive() {
@@ -260,7 +272,7 @@ fn check_lsp(text: &str, r: &mut CaseReport) {
                 let sig = if site.contains(".rs:") { format!("panic:{site}") } else { format!("lsp:{status}:{site}") };
                 r.fail(Failure::new(
                     sig,
-                    format!("oal-lsp died ({status}) on a full-text change; stderr tail: {}", tail(&stderr, 400)),
+                    format!("oal-lsp died ({status}) on a full-text change{}; stderr tail: {}", if unsaved.is_some() { " / close without saving" } else { "" }, tail(&stderr, 400)),
                 ));
                 *cell = None;
             }
@@ -353,8 +365,13 @@ impl Property for C04 {
                 None
             }
             Door::Lsp => {
-                check_lsp(&text, &mut r);
-                None
+                let unsaved = if tape.chance(1, 3) { Some(gen_mutant(tape)) } else { None };
+                check_lsp(&text, unsaved.as_deref(), &mut r);
+                let mut out = finish(&text, phase, door, ctx.want_rendered, r, None);
+                if let (Some(u), Some(v)) = (unsaved, out.rendered.as_mut()) {
+                    v["unsaved"] = json!(u);
+                }
+                return out;
             }
         };
         finish(&text, phase, door, ctx.want_rendered, r, valid)
@@ -374,7 +391,7 @@ impl Property for C04 {
         let mut r = CaseReport::default();
         match case.get("door").and_then(|d| d.as_str()) {
             Some("Cli") => check_cli(text, &mut r),
-            Some("Lsp") => check_lsp(text, &mut r),
+            Some("Lsp") => check_lsp(text, case.get("unsaved").and_then(|u| u.as_str()), &mut r),
             _ => {
                 check_in_process(text, &mut r);
                 // In replay the saved text goes through every door.
@@ -382,7 +399,7 @@ impl Property for C04 {
                     check_cli(text, &mut r);
                 }
                 if r.failure.is_none() {
-                    check_lsp(text, &mut r);
+                    check_lsp(text, None, &mut r);
                 }
             }
         }
